@@ -213,11 +213,33 @@ func c03History(in, out string) error {
 		var events []Event
 		first := map[string]string{}
 		var bad *Result
+		// an operation named "x@2" is the SECOND call of x on one handle: it must give what x gives, so it is
+		// observed under x's name
+		record := func(d *hdoc, op string, g int, phase, h string) {
+			if strings.HasSuffix(op, "@2") {
+				op, phase = strings.TrimSuffix(op, "@2"), phase+", second call on one handle"
+			}
+			events = append(events, Event{"event": "Begin", "doc": d.name, "op": op, "g": g})
+			events = append(events, Event{"event": "Observe", "doc": d.name, "op": op, "g": g, "hash": h, "phase": phase})
+			k := d.name + "|" + op
+			if f, ok := first[k]; !ok {
+				first[k] = h
+			} else if f != h && bad == nil {
+				x := fail("determinism", "C03:determinism:"+op,
+					fmt.Sprintf("%s of document %s returned a different result in phase %q than when it ran alone", op, d.name, phase),
+					map[string]interface{}{"doc": d.name, "op": op, "phase": phase, "request": json.RawMessage(raw)})
+				bad = &x
+			}
+		}
 		observe := func(d *hdoc, op string, g int, phase string) {
+			run := d.run[op]
+			if strings.HasSuffix(op, "@2") {
+				op, phase = strings.TrimSuffix(op, "@2"), phase+", second call on one handle"
+			}
 			mu.Lock()
 			events = append(events, Event{"event": "Begin", "doc": d.name, "op": op, "g": g})
 			mu.Unlock()
-			h := sha(d.run[op]())
+			h := sha(run())
 			mu.Lock()
 			defer mu.Unlock()
 			events = append(events, Event{"event": "Observe", "doc": d.name, "op": op, "g": g, "hash": h, "phase": phase})
@@ -251,10 +273,8 @@ func c03History(in, out string) error {
 				ops = append(ops, op)
 			}
 			sort.Strings(ops)
-			for _, op := range ops {
-				events = append(events, Event{"event": "Begin", "doc": d.name, "op": op, "g": 1},
-					Event{"event": "Observe", "doc": d.name, "op": op, "g": 1, "hash": hs[op], "phase": "alone-fresh-process"})
-				first[d.name+"|"+op] = hs[op]
+			for _, op := range ops { // sorted: "x" comes before "x@2"
+				record(d, op, 1, "alone-fresh-process", hs[op])
 				evals++
 			}
 		}
